@@ -450,6 +450,14 @@ func (ex *Exec) loopHead(fr *Frame, li *loopInfo, st *State) {
 	fr.curLoop = li.number
 	fr.atHead = li
 	defer func() { fr.curLoop = 0; fr.atHead = nil }()
+	if li.reanchored && li.riOrdinal > 0 && rangeIndexAlloc(li) == nil && !li.autoInvDone {
+		li.autoInvDone = true
+		if inv := counterBoundInvariant(fr.fn, li); inv != nil {
+			spec := *li.spec
+			spec.Invariants = append(append([]*Clause{}, li.spec.Invariants...), inv)
+			li.spec = &spec
+		}
+	}
 	// init
 	for _, inv := range li.spec.Invariants {
 		g := ex.specBool(fr, st, inv)
